@@ -576,6 +576,18 @@ def logic_block_part(C):
                    "self.machine.modes['mode2'].player"], raises={}, bounded=B)
 
 
+def mode_controller_set(pid):
+    """the ModeController part (ball_ending holds the queue until every game mode has stopped), for re-use by the
+    properties that depend on it (C02 queue events, C06 ball end)"""
+    c = ContractSet("C11", "game modes stop before the ball ends")
+    c.strings = True
+    logic_block_part(c)
+    c.pid = pid
+    c.replay_pid = "C11"
+    c.only_verify = ["ModeController._ball_ending", "ModeController._mode_stopped_callback"]
+    return c
+
+
 def build_extra():
     C2 = ContractSet("C11", "persisted enable flags of mode devices (EnableDisableMixin)")
     C2.strings = True
